@@ -35,7 +35,7 @@ func init() {
 func (c07) ID() string    { return "C07" }
 func (c07) Level() string { return "fault_enumeration" }
 func (c07) Rule() string {
-	return "unit = (target batch, mode, k): a history prefix builds a file-backed shard with every index type and a warm shared cache; for each target batch (insert / update / delete of 1, 7 or 40 points) a first run under the storage proxy fails the transaction at commit and counts the K storage operations it issued; then mode 'fail' makes the k-th failable operation (put / delete / scan / bucket open) return an error, mode 'kill' SIGKILLs the process at the k-th operation (any kind), before commit and right after commit (separate child process per kill, on a byte copy of the prefix file), and mode 'reject' issues batches that validation must refuse (duplicate id, stored id at first/middle/last position, oversized merge, wrong field type for every index type). After every failure: battery answers, point count and raw bucket digest of the RUNNING instance must equal the pre-batch ones, and so must a cold instance opened on a copy of the file; after a kill at or after commit exactly the pre-state or exactly the post-state is accepted; a call that reported success must have all effects visible (model comparison, warm and cold). Quick samples k (incl. first and last), thorough enumerates every k. Non-trivial = the fault fired (the k-th operation existed); distinct by (batch hash, mode, faulted bucket, operation kind, key class) for fail and (batch hash, mode, k) for kill."
+	return "unit = (target batch, mode, k): a history prefix builds a file-backed shard with every index type and a warm shared cache; for each target batch (insert / update / delete of 1, 7 or 40 points) a first run under the storage proxy fails the transaction at commit and counts the K storage operations it issued; then mode 'fail' makes the k-th failable operation (put / delete / scan / bucket open) return an error, mode 'kill' SIGKILLs the process at the k-th operation (any kind), before commit and right after commit (separate child process per kill, on a byte copy of the prefix file), and mode 'reject' issues batches that validation must refuse (duplicate id, stored id at first/middle/last position, oversized merge, wrong field type for every index type). After every failure: battery answers, point count and raw bucket digest of the RUNNING instance must equal the pre-batch ones, and so must a cold instance opened on a copy of the file; after a kill at or after commit exactly the pre-state or exactly the post-state is accepted; a call that reported success must have all effects visible (model comparison, warm and cold). Quick samples k (incl. first and last) and then fails the first and the last occurrence of every operation class (bucket, kind, key class) the sampled positions missed, thorough enumerates every k. Non-trivial = the fault fired (the k-th operation existed); distinct by (batch hash, mode, faulted bucket, operation kind, key class) for fail and (batch hash, mode, k) for kill."
 }
 func (c07) Assumptions() []string {
 	return []string{"SIGKILL realises 'the process dies at any instant'; torn writes on power loss are out of reach", "the k-th operation is not the same operation in every run (the pipeline is concurrent); coverage is the set of faulted (bucket, kind, key class)", "bucket reads (Get) cannot return an error in the storage interface, so they are kill points but not fail points"}
@@ -376,6 +376,7 @@ func (c07) RunCase(c fw.Case, env *fw.Env) *fw.CaseResult {
 	r.px.Arm(proxy.FailCommit, 0)
 	err := applyRaw(r.s, op)
 	allOps, failable := r.px.Counts()
+	classes := r.px.ClassCounts()
 	r.px.Disarm()
 	res.Eval(true, oh, "fail-commit")
 	res.Stat("faults_fired", 1)
@@ -433,6 +434,56 @@ func (c07) RunCase(c fw.Case, env *fw.Env) *fw.CaseResult {
 		}
 		if !r.expectPre(fmt.Sprintf("%s of %d points with storage operation #%d failing (%s on %s, key class %s)", op.Kind, op.Size(), k, info.Kind, info.Bucket, info.KeyCls), "op:"+info.Kind) {
 			return res
+		}
+	}
+	// ---- every class of failable operation the batch issued (bucket, kind, key class) that the
+	// sampled positions did not hit is failed at its first and at its last occurrence
+	clsNames := make([]string, 0, len(classes))
+	for cls := range classes {
+		clsNames = append(clsNames, cls)
+	}
+	sort.Strings(clsNames)
+	for _, cls := range clsNames {
+		if faulted[cls] {
+			continue
+		}
+		ords := []int64{1}
+		if n := classes[cls]; n > 1 {
+			ords = append(ords, n)
+		}
+		for _, ord := range ords {
+			r.px.ArmClass(cls, ord)
+			err := applyRaw(r.s, op)
+			fired := r.px.Fired.Load()
+			info := r.px.FiredOp
+			r.px.Disarm()
+			if !fired {
+				// the pipeline is concurrent: the class did not occur (that often) this time
+				res.Stat("class_faults_not_reached", 1)
+				if err != nil {
+					res.Violate("spurious-error", "C07:spurious:"+errClass(err), fmt.Sprintf("%s of %d points failed although no fault was injected (class %s #%d did not occur): %v", op.Kind, op.Size(), cls, ord, err), nil)
+					return res
+				}
+				if !checkStore(res, "C07:success", r.s, post, nil, int(ord), true) {
+					return res
+				}
+				if err := r.open(); err != nil {
+					res.Note("reopen work copy: %v", err)
+					return res
+				}
+				continue
+			}
+			faulted[cls] = true
+			res.Eval(true, oh, "fail-class", cls, ord)
+			res.Stat("faults_fired", 1)
+			res.Stat("class_directed_faults", 1)
+			if err == nil {
+				res.Violate("swallowed-error", "C07:swallowed:"+info.Kind+":"+info.Bucket, fmt.Sprintf("%s of %d points: occurrence %d of storage operation class %s returned an error but the call reported success", op.Kind, op.Size(), ord, cls), describeOp(op))
+				return res
+			}
+			if !r.expectPre(fmt.Sprintf("%s of %d points with occurrence %d of storage operation class %s failing", op.Kind, op.Size(), ord, cls), "op:"+info.Kind) {
+				return res
+			}
 		}
 	}
 	res.Stat("distinct_faulted_op_classes", int64(len(faulted)))
